@@ -140,6 +140,11 @@ def execute(sc):
         ref.append((embed.vec_np(mr), embed.to_np(scen.scale_node_cov(b, Pr, s2)), embed.to_np(scen.scale_node_cov(b, Psc, s2))))
     tol_m_ref = compare.TOL_GLOBAL_MEAN * (max(1.0, compare.scale_tol(kap) / 1e-8) if cfg["calib"] == "dynamic" else 1.0)
     tol_c_ref = compare.TOL_GLOBAL_COV + (100 * compare.scale_tol(kap) if scaled else 0.0)
+    kP = max([compare.corr_cond(embed.to_np(st["Ppred"])) for st in hist[1:]] + [1.0])
+    tol_m_ref = max(tol_m_ref, 100 * compare.cond_tol(compare.TOL_LOCAL_MEAN, kP))
+    tol_c_ref = max(tol_c_ref, 100 * compare.cond_tol(compare.TOL_LOCAL_COV, kP, 1e4))
+    tol_sub_m = compare.cond_tol(compare.TOL_LOCAL_MEAN, kP)
+    tol_sub_c0 = compare.cond_tol(compare.TOL_LOCAL_COV, kP, 1e4)
     if not viol and not borderline:
         # ---- B against the reference interpolation
         for i, t in enumerate(B):
@@ -150,7 +155,7 @@ def execute(sc):
             if em > tol_m_ref and not ill:
                 viol.append({"inv": "INTERP-mean", "msg": f"value at checkpoint {i} (t={t:.6g}, {cls[i][0]}, class {classes.get(t, 'end')}) differs from the exact interpolation of the step sequence: {em:.2e}"})
             if not ill and onp.max(onp.abs(onp.diag(Psc))) > 0:
-                ec = compare.cov_err(P, Pr, Psc)
+                ec = compare.cov_err(P, Pr, Psc, (q, d, hmean))
                 stats["worst_ref_cov"] = max(stats.get("worst_ref_cov", 0.0), ec)
                 if ec > tol_c_ref:
                     viol.append({"inv": "INTERP-cov", "msg": f"covariance at checkpoint {i} (t={t:.6g}, {cls[i][0]}) differs from the exact interpolation: {ec:.2e} (tol {tol_c_ref:.1e})"})
@@ -168,11 +173,11 @@ def execute(sc):
                 m2, P2, n2, o2 = values_at(b, rB.sol, i)
                 em = compare.mean_err(m1, m2, q, d, hmean)
                 Psc = ref[i][2]
-                ec = compare.cov_err(P1, P2, Psc) if onp.max(onp.abs(onp.diag(Psc))) > 0 else float(onp.max(onp.abs(P1 - P2)))
+                ec = compare.cov_err(P1, P2, Psc, (q, d, hmean)) if onp.max(onp.abs(onp.diag(Psc))) > 0 else float(onp.max(onp.abs(P1 - P2)))
                 stats["worst_subset_mean"] = max(stats.get("worst_subset_mean", 0.0), em)
                 stats["worst_subset_cov"] = max(stats.get("worst_subset_cov", 0.0), ec)
-                tol_sub_c = compare.TOL_LOCAL_COV * (10 if smoother else 1)
-                if em > compare.TOL_LOCAL_MEAN:
+                tol_sub_c = tol_sub_c0 * (10 if smoother else 1)
+                if em > tol_sub_m:
                     viol.append({"inv": "SUBSET-mean", "msg": f"mean at t={t:.6g} with checkpoint set {name} differs from the superset's value: {em:.2e}"})
                 if ec > tol_sub_c:
                     viol.append({"inv": "SUBSET-cov", "msg": f"covariance at t={t:.6g} with checkpoint set {name} differs from the superset's value: {ec:.2e}"})
@@ -205,7 +210,7 @@ def execute(sc):
                 m1, P1 = embed.normal_np(est)
                 m2, P2, _, _ = values_at(b, rB.sol, i)
                 em = compare.mean_err(m1, m2, q, d, hmean)
-                ec = compare.cov_err(P1, P2, ref[i][2])
+                ec = compare.cov_err(P1, P2, ref[i][2], (q, d, hmean))
                 n_off += 1
                 stats["worst_offgrid_mean"] = max(stats.get("worst_offgrid_mean", 0.0), em)
                 if em > tol_m_ref and not ill:
